@@ -38,7 +38,7 @@ struct OpResult {
   string what;
   string bytes; // output buffer including 8 guard bytes on each side for kind 0
   int64_t value = 0;
-  uint64_t dev_reads = 0, dev_errors = 0, dev_short = 0;
+  uint64_t dev_reads = 0, dev_errors = 0, dev_short = 0, dev_page_cut = 0;
 };
 
 struct PassResult {
@@ -171,6 +171,7 @@ static PassResult run_pass(const std::vector<Op>& ops) {
       r.dev_reads = c.reads;
       r.dev_errors = c.errors;
       r.dev_short = c.short_reads;
+      r.dev_page_cut = c.short_reads_page;
       if (i == 0) pr.first_call_read_device = c.reads > 0;
       pr.ops.push_back(r);
     }
@@ -199,7 +200,8 @@ static void run() {
   if (choose(3, "dev.faults") == 2) {
     unsigned n = 1 + choose(6, "dev.script.len");
     for (unsigned i = 0; i < n; i++) {
-      switch (choose(5, "dev.script.act")) {
+      switch (choose(6, "dev.script.act")) {
+        case 5: script.push_back(-3); break; // signal pending during this read (harmless for reads of <= one page)
         case 0:
         case 1: script.push_back(0); break;
         case 2: script.push_back(1 + choose(4095, "dev.script.short")); break;
@@ -212,7 +214,7 @@ static void run() {
     static const char* MODES[] = {"all 00", "all FF", "80 00 ...", "00 FF ...", "counter", "seeded"};
     string d = string("entropy stream ") + MODES[mode] + ", device script [";
     for (int a : script) d += std::to_string(a) + " ";
-    d += "] (0 full read, k>0 at most k bytes, -1 EIO, -2 EINTR); calls:";
+    d += "] (0 full read, k>0 at most k bytes, -1 EIO, -2 EINTR, -3 signal pending: at most one page); calls:";
     for (auto& op : ops) d += " " + op_name(op) + ";";
     note(d);
   }
@@ -239,6 +241,9 @@ static void run() {
       fail("random/nondeterministic_failure", "two_pass", op_name(op) + " threw in one pass and not in the other although the device behaved identically");
     }
     if (a.threw) {
+      if (!a.dev_errors && !a.dev_short && a.dev_page_cut) {
+        fail("random/threw_on_interrupted_large_read", "page_cut", op_name(op) + " threw '" + a.what + "': it read more than one page from the entropy device in one call, and Linux cuts such a read at a page boundary when a signal is pending");
+      }
       if (!a.dev_errors && !a.dev_short) {
         fail("random/threw_without_fault", op.kind == 3 ? "random_int" : "random_data", op_name(op) + " threw '" + a.what + "' although the entropy device delivered everything asked");
       }
